@@ -308,6 +308,28 @@ Section SortPtrProofs.
     injection H as _ <-. apply qdepth_log; lia.
   Qed.
 
+  (* what the drivers print as the depth of sort() is the depth of the statement-by-statement transcription,
+     and it is logarithmic: 2 ^ depth <= max 1 (number of elements) *)
+  Lemma sort_ptr_depth_is_sort_depth (l : list Z) r d : 2 <= length l ->
+      qs_sort key (length l) 0 (length l - 1) l = Some (r, d) -> d = sort_depth key l.
+  Proof.
+    intros E H. pose proof (qs_sort_refines (length l) [] l [] E (le_n _)) as R.
+    cbn [length app] in R. rewrite app_nil_r in R. cbn [Nat.add] in R. rewrite R in H.
+    destruct (qsort key (length l) l) as [r'|]; cbn [option_map] in H; [|discriminate].
+    injection H as _ <-. unfold sort_depth.
+    destruct (Nat.ltb (length l) 2) eqn:E2; [apply Nat.ltb_lt in E2; lia|reflexivity].
+  Qed.
+
+  Lemma sort_depth_pow (l : list Z) : 2 ^ sort_depth key l <= Nat.max 1 (length l).
+  Proof.
+    unfold sort_depth. destruct (Nat.ltb (length l) 2) eqn:E2.
+    - cbn [Nat.pow]. lia.
+    - apply Nat.ltb_ge in E2. pose proof (qdepth_log (length l) l E2 (le_n _)). lia.
+  Qed.
+
+  Lemma sort_depth_short (l : list Z) : length l < 2 -> sort_depth key l = 0.
+  Proof. intros H. unfold sort_depth. apply Nat.ltb_lt in H. rewrite H. reflexivity. Qed.
+
   Lemma sort_ptr_is_sort_vals (l : list Z) : sort_ptr key l = sort_vals key l.
   Proof.
     unfold sort_ptr, sort_vals. destruct (Nat.ltb (length l) 2) eqn:E; [reflexivity|].
